@@ -32,6 +32,26 @@ Proof.
   intros <-. unfold read_upto. rewrite firstn_app, Nat.sub_diag, firstn_all, skipn_app, Nat.sub_diag, skipn_all.
   simpl. now rewrite app_nil_r.
 Qed.
+(* the binary-counter readers are the unary ones *)
+Lemma read_uptoN_spec : forall bs n, read_uptoN n bs = read_upto (N.to_nat n) bs.
+Proof.
+  induction bs as [|b r IH]; intros n; cbn [read_uptoN].
+  - unfold read_upto. now rewrite firstn_nil, skipn_nil.
+  - destruct (N.eqb_spec n 0) as [->|Hn]; [reflexivity|].
+    rewrite IH. replace (N.to_nat n) with (S (N.to_nat (N.pred n))) by lia. reflexivity.
+Qed.
+Lemma nthN_spec {A} : forall (l : list A) n, nthN l n = nth_error l (N.to_nat n).
+Proof.
+  induction l as [|x r IH]; intros n; cbn [nthN].
+  - now destruct (N.to_nat n).
+  - destruct (N.eqb_spec n 0) as [->|Hn]; [reflexivity|].
+    rewrite IH. replace (N.to_nat n) with (S (N.to_nat (N.pred n))) by lia. reflexivity.
+Qed.
+Lemma read_uptoN_app a b : read_uptoN (N.of_nat (length a)) (a ++ b) = (a, b).
+Proof. rewrite read_uptoN_spec, Nat2N.id. now apply read_upto_app. Qed.
+Lemma read_uptoN_all a : read_uptoN (N.of_nat (length a)) a = (a, []).
+Proof. rewrite <- (app_nil_r a) at 2. apply read_uptoN_app. Qed.
+
 Lemma get_u_app w x rest : x < 256 ^ N.of_nat w -> get_u w (le_encode w x ++ rest) = Ok (x, rest).
 Proof. intros H. unfold get_u. rewrite need_app by apply le_encode_length. cbn [bind]. now rewrite le_roundtrip. Qed.
 
@@ -165,12 +185,12 @@ Proof.
   - destruct v; try contradiction. cbn [has_type] in Ht. cbn [wire_encode decode]. now rewrite need_app.
   - (* String *) destruct v; try contradiction; cbn [has_type] in Ht; destruct Ht as [Hl Hu];
     cbn [wire_encode decode]; rewrite <- app_assoc, plen_string_enc by exact Hl; cbn [bind];
-    unfold len; rewrite Nat2N.id, read_upto_app by reflexivity; unfold text_or_bytes; rewrite Hu; reflexivity.
+    unfold len; rewrite read_uptoN_app; unfold text_or_bytes; rewrite Hu; reflexivity.
   - (* Blob *) destruct v; try contradiction. cbn [has_type] in Ht. cbn [wire_encode decode].
-    rewrite <- app_assoc, plen_blob_enc by exact Ht. cbn [bind]. unfold len. rewrite Nat2N.id, read_upto_app by reflexivity.
-    now rewrite Nat.eqb_refl.
+    rewrite <- app_assoc, plen_blob_enc by exact Ht. cbn [bind]. unfold len. rewrite read_uptoN_app.
+    now rewrite N.eqb_refl.
   - (* Python *) destruct v; try contradiction. cbn [has_type] in Ht. cbn [wire_encode decode].
-    rewrite <- app_assoc, plen_py_enc by exact Ht. cbn [bind]. unfold len. rewrite Nat2N.id, read_upto_app by reflexivity. reflexivity.
+    rewrite <- app_assoc, plen_py_enc by exact Ht. cbn [bind]. unfold len. rewrite read_uptoN_app. reflexivity.
   - (* Mailbox *) destruct v; try contradiction. cbn [has_type] in Ht. destruct Ht as [Hip Hp]. cbn [wire_encode decode].
     rewrite <- app_assoc, read_upto_app by exact Hip. rewrite Hip. cbn [Nat.eqb].
     rewrite need_app by reflexivity. cbn [bind]. now rewrite be16_roundtrip.
@@ -289,11 +309,11 @@ Proof.
   - bind_inv H. inversion H; subst. eapply need_suffix; eauto.
   - bind_inv H. inversion H; subst. eapply need_suffix; eauto.
   - bind_inv H. inversion H; subst. eapply need_suffix; eauto.
-  - (* String *) bind_inv H. pose proof (read_upto_suffix (N.to_nat n) b) as S. destruct (read_upto (N.to_nat n) b) as [p r''].
+  - (* String *) bind_inv H. rewrite read_uptoN_spec in H. pose proof (read_upto_suffix (N.to_nat n) b) as S. destruct (read_upto (N.to_nat n) b) as [p r''].
     inversion H; subst. eapply suffix_trans; [exact S|eapply plen_string_suffix; eauto].
-  - (* Blob *) bind_inv H. pose proof (read_upto_suffix (N.to_nat n) b) as S. destruct (read_upto (N.to_nat n) b) as [p r''].
-    destruct (Nat.eqb _ _); [|discriminate]. inversion H; subst. eapply suffix_trans; [exact S|eapply plen_blob_suffix; eauto].
-  - (* Python *) unfold plen_py in H. bind_inv H. pose proof (read_upto_suffix (N.to_nat n) b) as S. destruct (read_upto (N.to_nat n) b) as [p r''].
+  - (* Blob *) bind_inv H. rewrite read_uptoN_spec in H. pose proof (read_upto_suffix (N.to_nat n) b) as S. destruct (read_upto (N.to_nat n) b) as [p r''].
+    destruct (N.eqb _ _); [|discriminate]. inversion H; subst. eapply suffix_trans; [exact S|eapply plen_blob_suffix; eauto].
+  - (* Python *) unfold plen_py in H. bind_inv H. rewrite read_uptoN_spec in H. pose proof (read_upto_suffix (N.to_nat n) b) as S. destruct (read_upto (N.to_nat n) b) as [p r''].
     inversion H; subst. eapply suffix_trans; [exact S|eapply get_u_suffix; eauto].
   - (* Mailbox *) pose proof (read_upto_suffix 4 bs) as S. destruct (read_upto 4 bs) as [ip r]. destruct (Nat.eqb _ _); [|discriminate].
     bind_inv H. inversion H; subst. eapply suffix_trans; [eapply need_suffix; eauto|exact S].
